@@ -752,8 +752,15 @@ class C05(core.Check):
                     yield self.pk(enc, more, bs + [97], "utf8", [[bs, exp], [[97], ["k", "a"]]])
                     yield self.pk(enc, more, [27] + bs, "utf8-meta")
                     for k in range(1, len(bs)):
-                        yield self.pk(enc, more, bs[:k], "utf8-trunc")
-                        yield self.pk(enc, more, bs[:k] + [97], "utf8-trunc")
+                        # a truncated character that cannot be completed (timeout, or an ASCII byte follows):
+                        # its bytes are unknown bytes and pass through one by one - the lead byte alone first
+                        first = [[bs[0]], "*1"] if enc == "utf8" else None
+                        yield self.pk(enc, more, bs[:k], "utf8-trunc", [first] if (first and not more) else None)
+                        yield self.pk(enc, more, bs[:k] + [97], "utf8-trunc", [first] if first else None)
+                    if enc == "utf8":
+                        for k in range(1, len(bs)):
+                            yield self.scr(enc, "hook", [["f", bs[:k]], ["t"], ["f", [97]]], "utf8-trunc",
+                                           [[[b], "*1"] for b in bs[:k]] + [[[97], ["k", "a"]]])
                 yield from self.all_cuts(enc, bs + [97] + bs, "utf8-cuts", [[bs, exp], [[97], ["k", "a"]], [bs, exp]])
             for bs in bad:
                 for more in (0, 1):
@@ -768,6 +775,14 @@ class C05(core.Check):
                 yield self.pk("utf8", (a ^ b) & 1, [a, b, 0x41], "lead-x-second")
                 segs = [[[a, b], ["k", chr(a) + chr(b)]], [[0x41], ["k", "A"]]] if wide_pair_char(a, b) else None
                 yield self.pk("wide", (a ^ b) & 1, [a, b, 0x41], "lead-x-second", segs)
+            # a documented single key (space, digit, DEL = backspace ...) after a high byte: no supported
+            # double-byte encoding has such a trail byte, so the high byte passes through alone and the key
+            # decodes as it would alone
+            for b in (0x20, 0x30, 0x3F, 0x7F, 0x09, 0x0D):
+                yield self.pk("wide", 1, [a, b, 0x41], "wide-lead-then-key",
+                              [[[a], "*1"], [[b], doc_byte(b)], [[0x41], ["k", "A"]]])
+                yield self.scr("wide", "hook", self.cut_ops([a, b, 0x41], [1]), "wide-lead-then-key",
+                               [[[a], "*1"], [[b], doc_byte(b)], [[0x41], ["k", "A"]]])
         # every character of the GBK / UHC first rows and a sample of the others, low and high trail bytes
         for a in (0x81, 0x82, 0xA1, 0xC6, 0xFE):
             for b in list(range(0x40, 0x7F)) + [0x80, 0x81, 0xA1, 0xFE]:
@@ -917,7 +932,11 @@ C05.level_text = (
     "position reports.  Encodings: well-formed UTF-8 characters; wide mode completely for a high byte (wide_pair_decodes: one two-byte "
     "character exactly for lead >= 0x80 with trail >= 0x80 or lead >= 0x81 with trail 0x40..0x7E, by computation of the translated "
     "within_double_byte on all 65536 byte pairs; wide_lead_alone; wide_text_decodes: one event per character for any ASCII/double-byte "
-    "text); narrow_high_byte.  Trusted rather than proved (exact correspondence + documentation oracle every run): that the hand "
+    "text); narrow_high_byte.  Whole streams: recognised_item_decodes / recognised_stream_decodes / "
+    "recognised_stream_any_fragmentation - ANY sequence of recognised items (table keys, X10 reports, SGR reports with decimal "
+    "parameters, cursor position reports the table does not shadow, printable ASCII, well-formed UTF-8 characters, double-byte "
+    "characters) is decoded into exactly one event per item, in order, with the documented name/coordinates, delivered whole or cut "
+    "into successive reads at arbitrary points; table_blind_falls_through.  Trusted rather than proved (exact correspondence + documentation oracle every run): that the hand "
     "model is the code (int() semantics, UTF-8 validity table vs CPython, get_input path), names of well-known keys against an "
     "independent xterm reference table.")
 C05.level_note = (
